@@ -411,6 +411,7 @@ impl<C: Config> Engine<C> {
         &self,
         computing: &QueryComputing,
         target: &QueryID,
+        visited: &mut fxhash::FxHashSet<QueryID>,
     ) -> bool {
         if computing.callee_info.callee_queries.contains_sync(target) {
             computing
@@ -430,7 +431,15 @@ impl<C: Config> Engine<C> {
                 return true;
             };
 
-            found |= self.check_cyclic_internal(&state, target);
+            // The registered callees of computing queries can form a cycle
+            // (a query that read itself or an ancestor stays on the table,
+            // marked, until it is published; a query in repair mode keeps the
+            // callees it re-verified): visit every computing query once.
+            if !visited.insert(*k) {
+                return true;
+            }
+
+            found |= self.check_cyclic_internal(&state, target, visited);
 
             true
         });
@@ -451,7 +460,11 @@ impl<C: Config> Engine<C> {
         running_state: &QueryComputing,
         target: &QueryID,
     ) -> bool {
-        self.check_cyclic_internal(running_state, target)
+        self.check_cyclic_internal(
+            running_state,
+            target,
+            &mut fxhash::FxHashSet::default(),
+        )
     }
 
     pub(super) fn is_query_running_in_scc(
